@@ -86,6 +86,14 @@ func yamlFor(mask uint64, scheme, svc string, pem, key string, ports [3]int) str
 			switch svc {
 			case "ok":
 				w("  serviceNameList:\n    - nchf-convergedcharging\n    - nchf-spendinglimitcontrol\n")
+			case "ok-one":
+				w("  serviceNameList:\n    - nchf-spendinglimitcontrol\n")
+			case "ok-all":
+				w("  serviceNameList:\n    - nchf-offlineonlycharging\n    - nchf-convergedcharging\n    - nchf-spendinglimitcontrol\n")
+			case "dup":
+				w("  serviceNameList:\n    - nchf-convergedcharging\n    - nchf-convergedcharging\n")
+			case "dup-far":
+				w("  serviceNameList:\n    - nchf-spendinglimitcontrol\n    - nchf-convergedcharging\n    - nchf-spendinglimitcontrol\n")
 			case "unknown":
 				w("  serviceNameList:\n    - nchf-convergedcharging\n    - nchf-foo\n")
 			case "unknown-sub":
@@ -159,7 +167,7 @@ func genConfig(o genOpts, w *bufio.Writer) {
 		emit(0, sc, "ok")
 		emit(1<<ciSbiTls, sc, "ok")
 	}
-	for _, sv := range []string{"unknown", "empty", "unknown-sub", "unknown-pre", "unknown-mid", "unknown-blank", "unknown-case", "unknown-comma"} {
+	for _, sv := range []string{"ok-one", "ok-all", "dup", "dup-far", "unknown", "empty", "unknown-sub", "unknown-pre", "unknown-mid", "unknown-blank", "unknown-case", "unknown-comma"} {
 		emit(0, "http", sv)
 		emit(0, "https", sv)
 	}
